@@ -389,8 +389,57 @@ def gen_count_formula(ctx: Ctx) -> Optional[List[Any]]:
              ["forall", x, w, None, "start", ["count", ["v", w], n, ["v", i]]]]]
 
 
-def gen_formula(g: Grammar, rng: random.Random) -> List[Any]:
+def gen_ring0(ctx: Ctx, family: Optional[str]) -> Optional[List[Any]]:
+    """Ring 0: parameterised variants of the constraint shapes ISLa's README, spec and
+    tests use (these drive the solver deep into its elimination chain)."""
+    rng, can = ctx.rng, ctx.can
+    try:
+        if family == "assgn":
+            alt = can["<assgn>"][0]
+            if len(alt) != 3 or any(c in MEXPR_FORBIDDEN for c in alt[1]):
+                return None
+            asg = alt[1]
+            if asg != asg.strip() and rng.random() < 0.0:
+                return None
+
+            def mx(l, r):
+                return [["b", l, "<var>"], ["t", asg], ["b", r, "<rhs>"]]
+
+            body = ["and", ["pred", "before", ["v", "a2"], ["v", "a1"]], ["smt", ["=", ["v", "l2"], ["v", "v"]]]]
+            if rng.random() < 0.3:
+                body = ["and", body, ["smt", ["not", ["=", ["v", "l2"], ["v", "l1"]]]]]
+            return ["forall", "<assgn>", "a1", mx("l1", "r1"), "start",
+                    ["forall", "<var>", "v", None, "r1",
+                     ["exists", "<assgn>", "a2", mx("l2", "r2"), "start", body]]]
+        if family == "lenprefix":
+            op = rng.choice(["=", "=", "<=", ">="])
+            return ["forall", "<msg>", "m", [["b", "l", "<len>"], ["t", ":"], ["b", "p", "<payload>"]], "start",
+                    ["smt", [op, ["str.to.int", ["v", "l"]], ["str.len", ["v", "p"]]]]]
+        if family == "blocks":
+            body = ["and", ["pred", "before", ["v", "d"], ["v", "u"]], ["smt", ["=", ["v", "i"], ["v", "j"]]]]
+            if rng.random() < 0.5:
+                body = ["and", ["pred", "level", ["s", "GE"], ["s", "<block>"], ["v", "d"], ["v", "u"]], body]
+            return ["forall", "<use>", "u", [["b", "i", "<id>"], ["t", ";"]], "start",
+                    ["exists", "<decl>", "d", [["t", "int "], ["b", "j", "<id>"], ["t", ";"]], "start", body]]
+        if family == "config":
+            k = rng.randint(1, 40)
+            return ["forall", "<entry>", "e", None, "start",
+                    ["exists", "<num>", "n", None, "e", ["smt", [rng.choice([">", ">=", "<"]), ["str.to.int", ["v", "n"]], ["i", k]]]]]
+        if family == "signed":
+            return ["forall", "<int>", "x", [["b", "s", "<sign>"], ["b", "d", "<digits>"]], "start",
+                    ["or", ["smt", ["=", ["v", "s"], ["s", "-"]]], ["smt", ["<", ["str.to.int", ["v", "d"]], ["i", rng.randint(3, 50)]]]]] \
+                if "<pad>" not in ctx.g else None
+    except (KeyError, IndexError):
+        return None
+    return None
+
+
+def gen_formula(g: Grammar, rng: random.Random, family: Optional[str] = None) -> List[Any]:
     ctx = Ctx(g, rng)
+    if family is not None and rng.random() < 0.3:
+        f = gen_ring0(ctx, family)
+        if f is not None:
+            return f
     r = rng.random()
     if r < 0.04:
         return ["true"]
